@@ -62,7 +62,8 @@ class Ctx:
 
     def check_floors(self):
         for rid, r in self.rules.items():
-            if r['obligations'] < r['floor']:
+            # the floor guards against a rule passing vacuously; a rule that reports a violation is not vacuous
+            if r['violations'] == 0 and r['obligations'] < r['floor']:
                 raise AnalysisError('rule %s found %d instances, fewer than the %d confirmed on the pinned tree' %
                                     (rid, r['obligations'], r['floor']))
 
